@@ -1,6 +1,6 @@
 (* C06 -- property theorems only.  Proofs live in C06/Proofs*.v and C06/Tables.v. *)
 From Coq Require Import NArith List Bool.
-From DV Require Import Base.Outcome Base.Bytes C06.Gen C06.Model C06.Proofs C06.Proofs2 C06.Tables C06.B32 C06.Proofs3 C06.Proofs4 C06.Blob C06.Proofs5 C06.Svc C06.SvcProofs.
+From DV Require Import Base.Outcome Base.Bytes C06.Gen C06.Model C06.Proofs C06.Proofs2 C06.Tables C06.B32 C06.Proofs3 C06.Proofs4 C06.Blob C06.Proofs5 C06.Svc C06.SvcProofs C06.SvcProofs2.
 Import ListNotations.
 Local Open Scope N_scope.
 
@@ -229,6 +229,47 @@ Theorem C06_svc_dohpath_roundtrip : forall b sp, wf_bytes b -> utf8_ok (S (lengt
   read_param (shape_tok sp (TWord (show_param (PDohpath b)))) = Ok (PDohpath b).
 Proof. exact svc_dohpath_roundtrip. Qed.
 Print Assumptions C06_svc_dohpath_roundtrip.
+
+Theorem C06_svc_port_roundtrip : forall n sp, n <= 65535 ->
+  good_shape (TWord (show_param (PPort n))) = true /\
+  read_param (shape_tok sp (TWord (show_param (PPort n)))) = Ok (PPort n).
+Proof. exact svc_port_roundtrip. Qed.
+Print Assumptions C06_svc_port_roundtrip.
+
+Theorem C06_svc_ohttp_roundtrip : forall sp,
+  good_shape (TWord (show_param POhttp)) = true /\ read_param (shape_tok sp (TWord (show_param POhttp))) = Ok POhttp.
+Proof. exact svc_ohttp_roundtrip. Qed.
+Print Assumptions C06_svc_ohttp_roundtrip.
+
+Theorem C06_svc_ech_roundtrip : forall b sp, wf_bytes b -> b <> [] ->
+  good_shape (TWord (show_param (PEch b))) = true /\
+  read_param (shape_tok sp (TWord (show_param (PEch b)))) = Ok (PEch b).
+Proof. exact svc_ech_roundtrip. Qed.
+Print Assumptions C06_svc_ech_roundtrip.
+
+Theorem C06_svc_groups_roundtrip : forall l sp, l <> [] -> Forall (fun n => n <= 65535) l -> no_dups l = true ->
+  good_shape (TWord (show_param (PGroups l))) = true /\
+  read_param (shape_tok sp (TWord (show_param (PGroups l)))) = Ok (PGroups l).
+Proof. exact svc_groups_roundtrip. Qed.
+Print Assumptions C06_svc_groups_roundtrip.
+
+Theorem C06_svc_ipv4hint_roundtrip : forall l sp, l <> [] -> Forall wf_ip4 l ->
+  good_shape (TWord (show_param (PIp4hint l))) = true /\
+  read_param (shape_tok sp (TWord (show_param (PIp4hint l)))) = Ok (PIp4hint l).
+Proof. exact svc_ipv4hint_roundtrip. Qed.
+Print Assumptions C06_svc_ipv4hint_roundtrip.
+
+Theorem C06_svc_mandatory_roundtrip : forall ks sp, ks <> [] -> Forall (fun k => 1 <= k < 65536) ks -> asc ks = true ->
+  good_shape (TWord (show_param (PMandatory ks))) = true /\
+  read_param (shape_tok sp (TWord (show_param (PMandatory ks)))) = Ok (PMandatory ks).
+Proof. exact svc_mandatory_roundtrip. Qed.
+Print Assumptions C06_svc_mandatory_roundtrip.
+
+Theorem C06_svc_ipv6hint_roundtrip : forall l sp, l <> [] -> Forall ip6_text_ok l ->
+  good_shape (TWord (show_param (PIp6hint l))) = true /\
+  read_param (shape_tok sp (TWord (show_param (PIp6hint l)))) = Ok (PIp6hint l).
+Proof. exact svc_ipv6hint_roundtrip. Qed.
+Print Assumptions C06_svc_ipv6hint_roundtrip.
 
 Theorem C06_svc_known_findings_refuted :
   read_param (mk_tok false true (show_param PNoDefaultAlpn)) = Err E_symbol /\
